@@ -1542,12 +1542,14 @@ def run(rep):
     sdis, _ = stage_split_vs_crt(rep, rng, n)
     dis += sdis
     found = stage_oracle_quote(rep, rng, strings, lists, n * (10 if dis else 1))
-    mdis, mbad = stage_msbuild_text(rep, rng, strings, n)
+    # (a stream of its own: the stages after these draw what they drew before these existed)
+    mrng = random.Random(rep.seed * 7 + 20)
+    mdis, mbad = stage_msbuild_text(rep, mrng, strings, n)
     if mdis and not mbad:
-        _, mbad = stage_msbuild_text(rep, rng, strings, n, budget=10)       # search with a 10x budget
+        _, mbad = stage_msbuild_text(rep, mrng, strings, n, budget=10)       # search with a 10x budget
     dis += mdis
     found += mbad
-    found += stage_msbuild_sys(rep, rng, strings, 16 if thorough else 4)
+    found += stage_msbuild_sys(rep, mrng, strings, 16 if thorough else 4)
     if dis and not rep.n_with_input:
         i, call, iv, mv = dis[0]
         rep.fail('W:%s - model and implementation disagree (%d cases), e.g. %r: impl %r, model %r' % (
